@@ -24,11 +24,13 @@ from vlib.core import Check
 
 LEVEL = "other"
 ENGINE = "E5 harness + E3 pyvc"
-TECHNIQUE = "contracts (postconditions of formulate()) checked on an enumerated reaction zoo x configuration space; closure lemma for amplitude definitions discharged by z3"
+TECHNIQUE = ("contracts (postconditions of formulate()) checked on an enumerated reaction zoo x configuration space; E3 contract of __define_missing_amplitudes "
+             "(loop invariant, all reactions) and closure lemma discharged by z3")
 CLAIM = (
     "The four postconditions (P1,P2,A,K) of formulate() are evaluated exactly (structural set comparison on the real returned model) for every zoo reaction x "
-    "enumerated builder configuration; the closure lemma 'every amplitude symbol the intensity ranges over is registered' is proved for all outer-state "
-    "projection sets from the contract of the registration code. Bounded in the space of reactions: that is why the level is 'other', not 'proof'."
+    "enumerated builder configuration. Clause (A) is additionally proved for ALL reactions and alignments: the real __define_missing_amplitudes is executed symbolically "
+    "(arbitrary finite set of amplitude symbols, arbitrary amplitude dictionary, loop invariant) and shown to define every amplitude symbol of the unfolded intensity while "
+    "keeping existing definitions. P1/P2/K remain bounded in the space of reactions: that is why the level is 'other', not 'proof'."
 )
 NOTE = (
     "Bound: the reaction zoo of vlib/zoo.py (8 qrules reactions incl. incomplete helicity products, half-integer spins, 1-3 topologies, both formalisms) x the "
